@@ -1,12 +1,14 @@
 SPECIFICATION SMSpec
 CONSTANTS
-  World <- MCWorld
+  World <- TheWorld
   MaxOps = 2
   ExtendIds <- MCExtend
+  InitSets <- MCInit
   Variant = 2
 INVARIANTS
   TypeOK
   AggregateLaws
+  DefsAgree
   Emit
   EmitWorld
 PROPERTIES
